@@ -47,7 +47,7 @@ def solve(model, sname='def', **kw):
             if sname == 'grb':
                 # Gurobi's default barrier tolerance for QCPs (1e-6) stops visibly early on some
                 # small SOC programs; outside C11 the harness asks for a tight one
-                kw.setdefault('params', {'BarQCPConvTol': 1e-10})
+                kw.setdefault('params', {'BarQCPConvTol': 1e-10, 'TimeLimit': 30, 'Threads': 1})
             model.solve(s, display=False, **kw)
 
 
@@ -58,6 +58,8 @@ def solve_formula(formula, sname='def'):
         warnings.simplefilter('ignore')
         if sname == 'def':
             return rlp.def_sol(formula, display=False)
+        if sname == 'grb':
+            return s.solve(formula, display=False, params={'TimeLimit': 30, 'Threads': 1})
         return s.solve(formula, display=False)
 
 
